@@ -697,3 +697,43 @@ func chainCaseHistory(r *rand.Rand) ([]gstep, string) {
 	}
 	return subs(ops), "chain-spelling"
 }
+
+// ---- round 6: a chain with a compass id on record ----
+
+const latestCompass = "compass-7"
+
+// compassRecordHistory: the honest validators report the event with the compass id on record; the first voter's claim
+// carries no compass id (an outdated relayer), another one, or a spelling variant — or everybody reports without one.
+func compassRecordHistory(r *rand.Rand, i int) ([]gstep, string) {
+	tt := i % 3
+	v := honestSpec(r, tt, 1)
+	v.Compass = latestCompass
+	if tt == tBatch {
+		v.Height = 1 + uint64(r.Intn(500))
+	}
+	a := v.clone()
+	a.Orch = 4
+	name := "compass-on-record:first-voter-empty"
+	switch (i / 3) % 3 {
+	case 0:
+		a.Compass = ""
+	case 1:
+		a.Compass = nearMiss(r, latestCompass)
+		name = "compass-on-record:first-voter-variant"
+	default:
+		a.Compass = ""
+		v.Compass = "" // nobody reports a compass id
+		name = "compass-on-record:all-empty"
+	}
+	ops := []spec{a}
+	for j := 0; j < 4; j++ {
+		h := v.clone()
+		h.Orch = j
+		ops = append(ops, h)
+	}
+	if r.Intn(2) == 0 { // the empty one arrives in the middle as well
+		ops[0], ops[2] = ops[2], ops[0]
+		ops = append([]spec{a}, ops[1:]...)
+	}
+	return subs(ops), name
+}
